@@ -49,6 +49,8 @@ struct World {
     chans: Vec<crossbeam_channel::Receiver<radicle::node::FetchResult>>,
     /// the direction of each peer's current connection as the wire knows it (not as the service recorded it)
     links: std::collections::HashMap<usize, Link>,
+    /// peers the service asked the wire to dial (Io::Connect) whose dial has not completed or failed yet
+    dial: HashSet<usize>,
 }
 
 impl World {
@@ -95,7 +97,16 @@ impl World {
             alice.seed(rid, Scope::All).unwrap();
         }
         alice.initialize();
-        World { alice, devices, nids, rids, docs, npeers, tasks: Vec::new(), ann_ts: 10, chans: Vec::new(), links: Default::default() }
+        // initialize() dials the configured peers
+        let mut dial = HashSet::new();
+        while let Some(io) = alice.service.next() {
+            if let Io::Connect(nid, _) = io {
+                if let Some(p) = nids.iter().position(|x| *x == nid) {
+                    dial.insert(p);
+                }
+            }
+        }
+        World { alice, devices, nids, rids, docs, npeers, tasks: Vec::new(), ann_ts: 10, chans: Vec::new(), links: Default::default(), dial }
     }
 
     fn addr(&self, p: usize) -> radicle::node::Address {
@@ -119,10 +130,6 @@ impl World {
         msg.signed(&self.devices[p]).into()
     }
 
-    fn connected(&self, p: usize) -> bool {
-        self.alice.service.sessions().get(&self.nids[p]).map(|s| s.is_connected()).unwrap_or(false)
-    }
-
     fn apply(&mut self, op: &Value) -> (Option<String>, Value) {
         let a = op.as_array().unwrap().clone();
         let name = a[0].as_str().unwrap().to_string();
@@ -132,22 +139,43 @@ impl World {
             "connect" => {
                 let p = us(1);
                 let addr = self.addr(p);
-                // our own dial completing if we have an outbound session being established,
-                // an inbound connection otherwise
-                let link = match self.alice.service.sessions().get(&self.nids[p]) {
-                    Some(s) if s.link.is_outbound() && (s.is_initial() || s.is_connecting()) => Link::Outbound,
+                let st = self.alice.service.sessions().get(&self.nids[p]).map(|s| (s.is_initial(), s.is_connecting()));
+                let dialling = self.dial.contains(&p) && matches!(st, Some((true, _)) | Some((_, true)));
+                // direction: as the script says; by default our own dial completes if one is under way,
+                // otherwise the peer connected to us
+                let link = match a.get(2).and_then(|x| x.as_str()) {
+                    Some("out") => Link::Outbound,
+                    Some("in") => Link::Inbound,
+                    _ if dialling => Link::Outbound,
                     _ => Link::Inbound,
                 };
+                if self.links.contains_key(&p) || (link.is_outbound() && !dialling) {
+                    info = json!({"skipped": true});
+                    return;
+                }
+                if link.is_outbound() {
+                    self.dial.remove(&p);
+                }
                 self.links.insert(p, link);
                 self.alice.service.connected(self.nids[p], addr, link);
                 let msg = self.node_ann(p);
                 self.alice.service.received_message(self.nids[p], msg);
             }
+            "dialfail" => {
+                // our dial to p fails: the wire reports a disconnection of the outbound link
+                let p = us(1);
+                if !self.dial.remove(&p) {
+                    info = json!({"skipped": true});
+                    return;
+                }
+                let err: std::sync::Arc<dyn std::error::Error + Sync + Send> = std::sync::Arc::new(std::io::Error::from(std::io::ErrorKind::ConnectionRefused));
+                self.alice.service.disconnected(self.nids[p], Link::Outbound, &DisconnectReason::Dial(err));
+            }
             "attempted" => {
                 let p = us(1);
                 let addr = self.addr(p);
                 // the wire only reports an attempt for a session it was asked to dial
-                if self.alice.service.sessions().get(&self.nids[p]).map(|s| s.is_initial()).unwrap_or(false) {
+                if self.dial.contains(&p) && self.alice.service.sessions().get(&self.nids[p]).map(|s| s.is_initial()).unwrap_or(false) {
                     self.alice.service.attempted(self.nids[p], addr);
                 }
             }
@@ -160,7 +188,10 @@ impl World {
                 let p = us(1);
                 let nid = self.nids[p];
                 // the wire reports the link of the connection that went away
-                let link = self.links.remove(&p).or(self.alice.service.sessions().get(&nid).map(|s| s.link)).unwrap_or(Link::Inbound);
+                let Some(link) = self.links.remove(&p) else {
+                    info = json!({"skipped": true});
+                    return;
+                };
                 self.alice.service.disconnected(nid, link, &DisconnectReason::Command);
             }
             "stale_disconnect" => {
@@ -168,7 +199,7 @@ impl World {
                 // that is not the session's current link; the service must ignore it
                 let p = us(1);
                 let nid = self.nids[p];
-                if let Some(link) = self.links.get(&p).copied().or(self.alice.service.sessions().get(&nid).map(|s| s.link)) {
+                if let Some(link) = self.links.get(&p).copied() {
                     let other = if link.is_inbound() { Link::Outbound } else { Link::Inbound };
                     self.alice.service.disconnected(nid, other, &DisconnectReason::Conflict);
                 }
@@ -200,7 +231,7 @@ impl World {
                 self.tasks[g - 1].finished = true;
                 let (repo, peer) = (self.tasks[g - 1].repo, self.tasks[g - 1].peer);
                 // Wire::worker_result: `peers.lookup_mut(&nid)` must find a connected peer.
-                let forwarded = self.connected(peer);
+                let forwarded = self.links.contains_key(&peer);
                 info = json!({"forwarded": forwarded, "repo": repo, "peer": peer});
                 if forwarded {
                     let res = match result {
@@ -234,6 +265,11 @@ impl World {
                     fetches.push(json!([self.tasks.len(), r, p]));
                 }
                 Io::Disconnect(nid, _) => disc.push(self.nids.iter().position(|x| *x == nid).unwrap()),
+                Io::Connect(nid, _) => {
+                    if let Some(p) = self.nids.iter().position(|x| *x == nid) {
+                        self.dial.insert(p);
+                    }
+                }
                 _ => {}
             }
         }
@@ -255,10 +291,14 @@ impl World {
                 let mut f: Vec<usize> = fetching.iter().map(|rid| self.rids.iter().position(|x| x == rid).unwrap() + 1).collect();
                 f.sort();
                 let state = if s.is_connected() { "connected" } else if s.is_initial() { "initial" } else if s.is_connecting() { "attempted" } else { "disconnected" };
-                sess.push(json!([p, s.is_connected(), f, s.queue.len(), state]));
+                sess.push(json!([p, s.is_connected(), f, s.queue.len(), state, if s.link.is_inbound() { "in" } else { "out" }]));
             }
         }
-        out.emit(&json!({"ev": "step", "op": op, "fetches": fetches, "table": table, "sess": sess, "disc": disc,
+        let mut wire: Vec<Value> = self.links.iter().map(|(p, l)| json!([p, if l.is_inbound() { "in" } else { "out" }])).collect();
+        wire.sort_by_key(|x| x[0].as_u64());
+        let mut dial: Vec<usize> = self.dial.iter().copied().collect();
+        dial.sort();
+        out.emit(&json!({"ev": "step", "op": op, "fetches": fetches, "table": table, "sess": sess, "disc": disc, "wire": wire, "dial": dial,
             "info": info, "panic": panic.unwrap_or_default()}));
         disc
     }
